@@ -23,8 +23,13 @@ func main() {
 	deadline := time.Now().Add(20 * time.Second)
 	for gate != "" && time.Now().Before(deadline) {
 		if _, err := os.Stat(gate); err == nil {
-			return
+			break
 		}
 		time.Sleep(time.Millisecond)
+	}
+	/* a hook that fails, with output, when asked to */
+	if len(os.Args) > 2 && os.Args[len(os.Args)-1] == "fail" {
+		os.Stderr.WriteString("viewer crashed\nsecond line\n")
+		os.Exit(1)
 	}
 }
